@@ -3,6 +3,7 @@ import CfrVerif.Proofs.GameWF
 import CfrVerif.Proofs.Frontier
 import CfrVerif.Props.C06
 import CfrVerif.Props.C07
+import CfrVerif.Proofs.Fuel
 import CfrVerif.Proofs.WellFormed
 /-!
 # C05 — every solve returns a well-formed strategy profile and never panics
@@ -188,6 +189,27 @@ theorem solve_wellformed (env : Env) (sched : Sched ℝ) (hs : sched.Fair) (g : 
   | external =>
     have := sampled_thread_count_invariant env sched hs g hg .external (by decide) T thr n params draw out h
     exact wellformed_of_same g T _ _ this (external_single_wellformed g hg _ hpo draw T thr)
+
+/-! ## the frontier loops terminate by their own exit condition
+
+The model runs the `while` loops of `thread_threshold` (and `next_nodes`) on a fuel argument.  With
+the fuel the solvers pass, additional fuel changes nothing: the loops have already left through
+their exit condition, for every tree, target, strategy table and draw oracle — so the totality
+of the model does not hide a loop that never ends (`Proofs/Fuel.lean`). -/
+
+theorem frontier_loop_terminates_vanilla (g : Game ℝ) (c : VCtx ℝ) (target extra : Nat) (d : DrawSt ℝ) :
+    vThreshold c target (2 * g.root.size + 2 + extra) [⟨[], g.root, 1, 1, 1⟩] [] d
+      = vThreshold c target (2 * g.root.size + 2) [⟨[], g.root, 1, 1, 1⟩] [] d :=
+  vThreshold_fuel_enough g c target extra d
+
+theorem frontier_loop_terminates_external (g : Game ℝ) (c : ECtx ℝ) (target extra : Nat) (d : DrawSt ℝ) :
+    eThreshold c target g.root.size (2 * g.root.size + 2 + extra) [⟨[], g.root⟩] [] d
+      = eThreshold c target g.root.size (2 * g.root.size + 2) [⟨[], g.root⟩] [] d :=
+  eThreshold_fuel_enough g c target extra d
+
+theorem next_nodes_terminates (c : ECtx ℝ) (n : Node ℝ) (path : Path) (extra : Nat) (d : DrawSt ℝ) :
+    eNextNodes c (n.size + extra) n path d = eNextNodes c n.size n path d :=
+  eNextNodes_fuel_enough c n path extra d
 
 /-! ## no infoset twice on a path -/
 
